@@ -94,7 +94,8 @@ Definition max_nesting : Z := 64.
 Definition nesting_levels (where_ n : Z) : Z := (if where_ =? 1 then 2 else 1) + n.
 Definition run_nesting (inp : list Z) : list Z :=
   match inp with
-  | [where_; n; _] => [b2z (nesting_levels where_ n <=? max_nesting)]
+  | [where_; n; _] => if where_ >=? 3 then [0]   (* a string length prefix far beyond the input: refused, never a crash *)
+                      else [b2z (nesting_levels where_ n <=? max_nesting)]
   | _ => [-779]
   end.
 
